@@ -242,11 +242,14 @@ class MetadataGenerator:
         list_types: List[DList] = []
         dict_types: List[DDict] = []
         other_types: List[MetaData] = []
+        literal_types: List[StringLiteral] = []
         for item in self._union_members(t.types):
             if isinstance(item, dict):
                 types_to_merge.append(item)
             elif item in self.str_types_registry or item is str:
                 str_types.append(item)
+            elif isinstance(item, StringLiteral):
+                literal_types.append(item)
             elif isinstance(item, DList):
                 list_types.append(item)
             elif isinstance(item, DDict):
@@ -267,6 +270,15 @@ class MetadataGenerator:
                 other_types.append(cls(DUnion(*(
                     t.type for t in iterable_types
                 ))))
+
+        if literal_types:
+            # Literals found under different members are united before str is weighed against the pseudo-types:
+            # the united set may overflow, and then it is str itself
+            literal = self.optimize_type(DUnion(*literal_types).types[0])
+            if literal is str:
+                str_types.append(str)
+            else:
+                other_types.append(literal)
 
         if str in str_types:
             other_types.append(str)
